@@ -12,8 +12,8 @@
    placement order, de-interleaving, every block syndrome-free, segment parsing,
    terminator / pad check, all fixed patterns in place).
    Strings are byte lists (is_bytes: every element in 0..255). *)
-From Verif Require Import Prelude Barcode GFM TabQr QRMBits QRMBlocks QRMRender QRM QRSpec
-  QRP1Tables QRP2Layout QRP3Pad QRP4Blocks QRP6Compose QRProps.
+From Verif Require Import Prelude Barcode BitListM GFM TabQr QRMBits QRMBlocks QRMRender QRM QRSpec
+  QRP1Tables QRP2Layout QRP3Pad QRP4Blocks QRP5Place QRP6Compose QRProps.
 
 (* The main theorem.  For every content, level value, mode among Auto / Numeric /
    AlphaNumeric / Unicode and mask: if the encoder returns a barcode, its image is a
@@ -100,6 +100,41 @@ Theorem C01_blocks : forall bits vi l,
   exists data, codewords_of_bits bits vi = Ok data /\ blocks_facts (vi_version vi) l bits data.
 Proof. exact qr_c01_blocks. Qed.
 Print Assumptions C01_blocks.
+
+(* Layer 3, general forms -- de-interleaving inverts interleaving for an ARBITRARY block
+   structure: n1 = |g1| blocks of k1 data codewords, n2 = |g2| blocks of k1+1, e check
+   codewords each (good_block also records that the block is a valid RS codeword);
+   r is the number of extra passes (1 iff there is a second group). *)
+Theorem C01_interleave_roundtrip :
+  forall (g1 g2 : list (list Z * list Z)) (k1 : nat) (e : Z) (r : nat) layout,
+  Forall (good_block k1 e) g1 -> Forall (good_block (S k1) e) g2 ->
+  (g2 = [] /\ r = 0%nat) \/ r = 1%nat ->
+  0 <= e ->
+  bl_e layout = e -> bl_n1 layout = Z.of_nat (length g1) -> bl_k1 layout = Z.of_nat k1 ->
+  bl_n2 layout = Z.of_nat (length g2) ->
+  forall ecs, interleave_ecc (Z.to_nat e) (map snd (g1 ++ g2)) = Ok ecs ->
+  deinterleave layout (interleave_data (k1 + r) (map fst (g1 ++ g2)) ++ ecs) = g1 ++ g2.
+Proof. exact qr_c01_interleave. Qed.
+Print Assumptions C01_interleave_roundtrip.
+
+(* Placement: writing masked bits at a duplicate-free list of in-range cells never
+   panics, changes no other cell, and unmasking the written cells returns the bits
+   (continued with zeros when the bits run out: the remainder bits). *)
+Theorem C01_placement : forall dim order bits mask m,
+  qm_dim m = dim -> Forall (in_range dim) order -> NoDup (map (cell_key dim) order) ->
+  exists m', place_bits order bits mask m = Ok m' /\ qm_dim m' = dim
+    /\ (forall q, ~ In (cell_key dim q) (map (cell_key dim) order) -> peek m' q = peek m q)
+    /\ map (fun p => xorb (peek m' p) (mask_bit mask (fst p) (snd p))) order
+       = take_pad (length order) bits.
+Proof. exact qr_c01_placement. Qed.
+Print Assumptions C01_placement.
+
+(* The bit stream is a list of booleans (theorem C18); on a whole number of bytes the
+   model's IterateBytes is the byte view pack8 of C18's boolean-sequence specification. *)
+Theorem C01_bitlist_bytes : forall bits, (exists n, length bits = (8 * n)%nat) ->
+  bytes_of_bits bits = BitListM.pack8 bits.
+Proof. exact qr_c01_bitlist_bytes. Qed.
+Print Assumptions C01_bitlist_bytes.
 
 (* the hypotheses are satisfiable: concrete symbols of versions 1, 2 (numeric), 6 and
    12, four masks, evaluated by the kernel *)
